@@ -1,4 +1,5 @@
 import Wayfind.Model.Router
+import Wayfind.Generated.Facts
 import Wayfind.Spec.Fits
 
 /-! # C13 — constraints: unique names, unknown names refused, rejection skips one value
@@ -49,3 +50,15 @@ theorem C13_rejected_value_skips_only_itself (env : Env) (cons : Option Bytes) (
     tryCands env cons name path ps k (c :: cs) best = tryCands env cons name path ps k cs best := by
   rw [tryCands_cons]
   simp [stepCand, hrej]
+
+/-! ## generated obligations (re-extracted from /repo's source text on every run) -/
+
+/-- the documented built-in table: names u8..u128, usize, i8..i128, isize, f32, f64, bool, ipv4, ipv6, each implemented
+for the corresponding Rust type -/
+theorem C13_builtins_table : Generated.builtinImpls = [([117, 56], [117, 56]), ([117, 49, 54], [117, 49, 54]), ([117, 51, 50], [117, 51, 50]), ([117, 54, 52], [117, 54, 52]), ([117, 49, 50, 56], [117, 49, 50, 56]), ([117, 115, 105, 122, 101], [117, 115, 105, 122, 101]), ([105, 56], [105, 56]), ([105, 49, 54], [105, 49, 54]), ([105, 51, 50], [105, 51, 50]), ([105, 54, 52], [105, 54, 52]), ([105, 49, 50, 56], [105, 49, 50, 56]), ([105, 115, 105, 122, 101], [105, 115, 105, 122, 101]), ([102, 51, 50], [102, 51, 50]), ([102, 54, 52], [102, 54, 52]), ([98, 111, 111, 108], [98, 111, 111, 108]), ([105, 112, 118, 52], [73, 112, 118, 52, 65, 100, 100, 114]), ([105, 112, 118, 54], [73, 112, 118, 54, 65, 100, 100, 114])] := by decide
+
+/-- `Router::new` registers exactly those 17 types, each once -/
+theorem C13_builtins_registered : Generated.builtinRegistrations = [[117, 56], [117, 49, 54], [117, 51, 50], [117, 54, 52], [117, 49, 50, 56], [117, 115, 105, 122, 101], [105, 56], [105, 49, 54], [105, 51, 50], [105, 54, 52], [105, 49, 50, 56], [105, 115, 105, 122, 101], [102, 51, 50], [102, 54, 52], [98, 111, 111, 108], [73, 112, 118, 52, 65, 100, 100, 114], [73, 112, 118, 54, 65, 100, 100, 114]] := by decide
+
+/-- every built-in `check` is literally `part.parse::<Self>().is_ok()`, i.e. Rust's `FromStr` for that type -/
+theorem C13_builtins_are_fromstr : Generated.builtinFromStr = [[117, 56], [117, 49, 54], [117, 51, 50], [117, 54, 52], [117, 49, 50, 56], [117, 115, 105, 122, 101], [105, 56], [105, 49, 54], [105, 51, 50], [105, 54, 52], [105, 49, 50, 56], [105, 115, 105, 122, 101], [102, 51, 50], [102, 54, 52], [98, 111, 111, 108], [73, 112, 118, 52, 65, 100, 100, 114], [73, 112, 118, 54, 65, 100, 100, 114]] := by decide
